@@ -578,3 +578,14 @@ def m_capnp_text(ex, st, fr, path, args, m):
     if op == "is_empty":
         return I("bool", hi == lo)
     return args[0]
+
+
+# the capnp models must win over the generic std models (e.g. IntoIterator for a list reader, which is a reference here)
+def _prioritise():
+    from . import models as _m
+    mine = [e for e in _m.MODELS if getattr(e[1], "__module__", "") == __name__]
+    rest = [e for e in _m.MODELS if getattr(e[1], "__module__", "") != __name__]
+    _m.MODELS[:] = mine + rest
+
+
+_prioritise()
